@@ -192,6 +192,9 @@ class Prop(BaseProp):
             elif op in ("bullets", "enum"):
                 items = []
                 for _k in range(rng.choice([1, 2, 3, 3, 10, 12, 101])):
+                    if _k and rng.random() < 0.1:
+                        items.append((None, ""))            # an item without text is an item all the same
+                        continue
                     i = nid()
                     items.append((i, f"item {{T{i}}}"))
                 (obj.bulleted_list if op == "bullets" else obj.enumerated_list)(*[t for _, t in items])
@@ -286,8 +289,9 @@ class Prop(BaseProp):
                 elif e[0] == "field":
                     exp.append((e[1], m.depth, "field", e[2]))
                 elif e[0] == "list":
-                    for i, t in e[2]:
-                        exp.append((i, m.depth, "list", t))
+                    for k_, (i, t) in enumerate(e[2]):
+                        if i is not None:
+                            exp.append((i, m.depth, "list", (t, e[1], k_)))
                 elif e[0] == "sec":
                     exp.append((e[1].sec_id, 0, "section", e[1]))
                     walk(e[1])
@@ -333,6 +337,14 @@ class Prop(BaseProp):
                     res.violate(f"{kind}-indent", f"line {l!r} must start with exactly {3 * d} spaces (depth {d})", wit)
                 elif first and l[len(ind)] != first:
                     res.violate(f"{kind}-shape", f"line {l!r}", wit)
+                if kind == "list":
+                    # the marker: '* ' for bulleted lists, the item's position (counting every item, also one without text) for
+                    # enumerated ones
+                    t_, op_, k_ = extra
+                    mark = "* " if op_ == "bullets" else f"{k_ + 1}. "
+                    res.count("list_markers_checked")
+                    if not (l[len(ind):].startswith(mark + t_) or (op_ == "enum" and l[len(ind):].startswith("#. " + t_))):
+                        res.violate(f"list-item-marker:{op_}", f"line {l!r}: item {k_ + 1} of the list should read {mark + t_!r}", wit)
                 if kind == "heading":
                     c = extra
                     if not l[len(ind):].startswith(f".. {c.name}:: "):
